@@ -1139,7 +1139,7 @@ class Action:
             npath += delim
 
         if Eups.force and envVar in Eups.oldEnviron:
-            del Eups.oldEnviron[envVar]
+            Eups.oldEnviron[envVar] = None # forget the old value (so it's always exported), not the variable
 
         Eups.setEnv(envVar, npath, interpolateEnv=True)
 
@@ -1169,7 +1169,7 @@ class Action:
             value = args[1]
 
         if Eups.force and key in Eups.oldEnviron:
-            del Eups.oldEnviron[key]
+            Eups.oldEnviron[key] = None # forget the old value (so it's always exported), not the variable
 
         if fwd:
             value = self.expandEnvironmentalVariable(value, Eups.verbose)
